@@ -271,12 +271,12 @@ func parseT(dump string) ([]drow, bool, error) {
 		}
 		f := strings.Split(l[4:], "|")
 		if len(f) != 3 || !strings.HasPrefix(f[0], "I") || !strings.HasPrefix(f[1], "I") {
-			return nil, has, fmt.Errorf("unexpected row %q", trunc(l, 120))
+			return nil, has, fmt.Errorf("unexpected row %q", stTrunc(l, 120))
 		}
 		id, e1 := strconv.ParseInt(f[0][1:], 10, 64)
 		v, e2 := strconv.ParseInt(f[1][1:], 10, 64)
 		if e1 != nil || e2 != nil {
-			return nil, has, fmt.Errorf("unexpected row %q", trunc(l, 120))
+			return nil, has, fmt.Errorf("unexpected row %q", stTrunc(l, 120))
 		}
 		pad := ""
 		switch {
@@ -284,7 +284,7 @@ func parseT(dump string) ([]drow, bool, error) {
 			pad = f[2][1:]
 		case f[2] == "N":
 		default:
-			return nil, has, fmt.Errorf("unexpected pad in row %q", trunc(l, 120))
+			return nil, has, fmt.Errorf("unexpected pad in row %q", stTrunc(l, 120))
 		}
 		out = append(out, drow{id, v, pad})
 	}
@@ -292,7 +292,7 @@ func parseT(dump string) ([]drow, bool, error) {
 	return out, has, nil
 }
 
-func trunc(s string, n int) string {
+func stTrunc(s string, n int) string {
 	if len(s) > n {
 		return s[:n] + "..."
 	}
@@ -352,7 +352,7 @@ var _ = store.ErrNotOpen
 // from a message, so that violation details and log lines are replayable.
 func clean(c *core.Ctx, s string) string { return strings.ReplaceAll(s, c.Dir, "<dir>") }
 
-func violate(c *core.Ctx, class, format string, a ...any) {
+func stViolate(c *core.Ctx, class, format string, a ...any) {
 	c.Violate(class, "%s", clean(c, fmt.Sprintf(format, a...)))
 }
 
